@@ -80,14 +80,14 @@ def gen_model(rng, kind, rows, cols):
 
 
 def gen_partition(rng, start8, end8, n):
-    """n readout times (in 1/8 s units) ending at end8, strictly inside (start8, end8] and never 0"""
+    """n readout times (in 1/8 of the grid unit) ending at end8, strictly inside (start8, end8] and never 0"""
     inner = [v for v in range(start8 + 1, end8) if v != 0]
     n = min(n, len(inner) + 1)
     pts = sorted(rng.sample(inner, n - 1)) + [end8]
     return [p / 8.0 for p in pts]
 
 
-def gen_case(rng):
+def gen_case(rng, time_mode=None):
     rows, cols = rng.choice([2, 4, 4, 6]), rng.choice([2, 4, 6, 8])
     nph = rng.choice([0, 1, 1, 2, 2, 3])
     photon = [gen_model(rng, rng.choice(list(PHOTON_FUNCS)), rows, cols) for _ in range(nph)]
@@ -104,17 +104,53 @@ def gen_case(rng):
             break
     if rng.random() < 0.3:
         start8 = 0 if end8 > 0 else start8
-    parts = [[end8 / 8.0]]
-    for _ in range(3):
-        parts.append(gen_partition(rng, start8, end8, rng.randrange(2, 13)))
-    if rng.random() < 0.5:
-        parts.append(gen_partition(rng, start8, end8, 12))
+    tm = time_mode or rng.choice(["grid8", "grid8", "dyadic-fine", "dyadic-fine", "fraction", "fraction", "fraction"])
+    time_exact = True
+    if tm in ("grid8", "dyadic-fine"):
+        # exact (dyadic) grids: 1/8 s, or 2^-10 … 2^-23 s (≈ 1 ms … 0.12 µs: intervals that are no multiples of 1 µs)
+        u = 0.125 if tm == "grid8" else 2.0 ** -rng.choice([10, 13, 17, 20, 23])
+        parts = [[end8]]
+        for _ in range(3):
+            parts.append(gen_partition(rng, start8, end8, rng.randrange(2, 13)))
+        if rng.random() < 0.5:
+            parts.append(gen_partition(rng, start8, end8, 12))
+        start, parts = start8 * u, [[p * 8.0 * u for p in part] for part in parts]
+        parts[0] = [end8 * u]
+    else:
+        # arbitrary doubles: thirds / sevenths / n-ths of the exposure and random split points with many digits, for
+        # exposures from seconds down to microseconds (compared at 1e-12 relative)
+        time_exact = False
+        length = rng.choice([1.0, 1.0, 10.0, 0.3, 1e-3, 2.5e-4, 9.87655e-3, 1e-5, 3.3e-6])
+        start = rng.choice([0.0, 0.0, length * rng.choice([0.5, -0.25, 1.0, 0.1])])
+        end = start + length
+        if end == 0.0:
+            start, end = 0.0, length
+        parts = [[end]]
+        for n in rng.sample([3, 7, 9, 11, 6], 2):
+            parts.append([start + length * k / n for k in range(1, n)] + [end])
+        for _ in range(2):
+            n = rng.randrange(2, 13)
+            while True:
+                pts = sorted(rng.uniform(start, end) for _ in range(n - 1))
+                allp = [start] + pts + [end]
+                if all(b - a >= 0.01 * length for a, b in zip(allp, allp[1:])) and all(p != 0.0 for p in pts):
+                    break
+            parts.append(pts + [end])
+        parts = [p for p in parts if all(b > a for a, b in zip([start] + p, p)) and all(t != 0.0 for t in p)]
+    if tm != "grid8" and rng.random() < 0.5:
+        # fast readouts are used with a time scale of 1 ms / 1 µs
+        for m in photon + charge:
+            if "time_scale" in m["args"]:
+                m["args"]["time_scale"] = rng.choice([1e-3, 1e-6])
+                m["dyadic"] = False
+    c = rng.choice([2.0, 0.5, 3.0, 4.0, 1.5, 2.0 ** -10, 2.0 ** -20, 1e-3, 1e-6, 1e-3, 1e3])
     return {
         "rows": rows, "cols": cols, "detector": rng.choice(["CCD", "CMOS"]),
         "temperature": rng.choice([150.0, 200.0, 250.0, 293.0]),
         "photon": photon, "qe": qe, "charge": charge, "collect": rng.random() < 0.95,
-        "start": start8 / 8.0, "partitions": parts,
-        "scale_c": rng.choice([2.0, 0.5, 3.0, 4.0, 1.5]),
+        "start": start, "partitions": parts, "time_mode": tm,
+        "time_exact": time_exact and c in (2.0, 0.5, 3.0, 4.0, 1.5, 2.0 ** -10, 2.0 ** -20),
+        "scale_c": c,
     }
 
 
@@ -237,7 +273,8 @@ def run_impl(case):
 
 # ------------------------------------------------------------------ comparison helpers
 def is_dyadic(case):
-    return all(m["dyadic"] for m in case["photon"] + case["charge"])
+    """exact comparison only when every rate, every time and the scaling factor are dyadic (binary64 arithmetic exact)"""
+    return case.get("time_exact", True) and all(m["dyadic"] for m in case["photon"] + case["charge"])
 
 
 def close(a, b, exact):
@@ -346,6 +383,8 @@ def body(ck: common.Check):
         exact = is_dyadic(case)
         ck.case(case, nontrivial=("error" not in impl and len(case["partitions"][-1]) >= 2), stream="pipelines")
         ck.count("dyadic" if exact else "tolerance-1e-12")
+        ck.count("time-mode=" + case.get("time_mode", "grid8"))
+        ck.count(f"scale-c={case['scale_c']:g}")
         for m in case["photon"] + case["charge"]:
             ck.count("model=" + m["kind"])
         ck.count("qe=" + (case["qe"]["via"] if case["qe"] else "none"))
@@ -379,8 +418,10 @@ def body(ck: common.Check):
     ck.rule = ("pipelines of 0-3 photon models (illumination uniform/rectangular/elliptic, load_image with position/align/"
                "multiplier/ADU conversion, stripe_pattern), simple_conversion without sampling (QE by argument or from the "
                "detector), 0-2 charge models (load_charge, noise-free dark_current), simple_collection; even-sized detectors "
-               "2x2..6x8, CCD/CMOS; one interval [start, end] on the 1/8 s grid split into 1..12 readouts (4-5 partitions per "
-               "case), non-destructive and destructive, plus the schedule scaled by c; every model function also called alone "
+               "2x2..6x8, CCD/CMOS; one interval [start, end] split into 1..12 readouts (4-5 partitions per case) on an exact grid "
+               "(1/8 s, or 2^-10…2^-23 s: intervals that are no multiples of 1 µs) or at arbitrary doubles (thirds / sevenths / "
+               "n-ths of the exposure, random split points; exposures of 10 s … 3 µs, time scales 1 ms / 1 µs), non-destructive and "
+               "destructive, plus the schedule scaled by c (2, 0.5, 3, 4, 1.5, 2^-10, 2^-20, 1e-3, 1e-6, 1e3); every model function also called alone "
                "at three (Δt, time_scale) points; non-trivial = finest partition has ≥ 2 readouts")
     ck.assumptions = [
         "'does not change' (DESIGN 6b): equal as exact rationals when every model has dyadic rates; otherwise within 1e-12 relative",
